@@ -37,7 +37,11 @@ def gen_case(D):
     def gen_tree(depth):
         node = {'state': D.choice(ALL_STATES) if D.bool(0.45)
                 else D.choice(TERMINAL),
-                'age': D.choice(ages), 'tasks': []}
+                'age': D.choice(ages), 'tasks': [],
+                # minutes between creation and the last update: the age of
+                # the statement counts from the last update (an execution
+                # that ran for days and finished a minute ago is young)
+                'ran': D.choice([0, 0, 1, 7, 45, 700, 50000])}
         nt = D.int(0, 2) if depth < 3 else 0
         for _ in range(nt):
             t = {'actions': D.int(0, 2), 'subs': []}
@@ -85,7 +89,7 @@ def _populate(case):
         root_rows.add(('wf', wid))
         stamps.append(('workflow_executions_v2', wid,
                        now - datetime.timedelta(minutes=node['age']),
-                       project))
+                       project, node.get('ran', 0)))
         for t in node['tasks']:
             tid = nid('t')
             db_api.create_task_execution({
@@ -112,11 +116,13 @@ def _populate(case):
                          'nested': any(t['subs'] for t in tr['tasks'])}
     eng = sim._mods['sa_base'].get_engine()
     with eng.begin() as conn:
-        for table, rid, ts, project in stamps:
+        for table, rid, ts, project, ran in stamps:
             conn.execute(sa.text(
-                'UPDATE %s SET updated_at=:t, created_at=:t, project_id=:p '
+                'UPDATE %s SET updated_at=:t, created_at=:c, project_id=:p '
                 'WHERE id=:i' % table), {
                     't': ts.strftime('%Y-%m-%d %H:%M:%S.%f'),
+                    'c': (ts - datetime.timedelta(minutes=ran)).strftime(
+                        '%Y-%m-%d %H:%M:%S.%f'),
                     'p': 'proj-' + project, 'i': rid})
     return info
 
